@@ -90,7 +90,7 @@ def check_stack(table, top, o, phase):
 
 
 def run(tier, seed, rng):
-    ng = 60 if tier == 'quick' else 600
+    ng = 60 if tier == 'quick' else 2000
     feats = lambda g: dict(codegen_opts=(g % 2 == 1))
 
     def extra(G, c, vg, rng):
